@@ -219,7 +219,7 @@ fn main_check(ctx: &Ctx) -> Outcome {
 
     // (c) all partitions of short inputs, differential against the one-shot result
     let focus: Vec<&[u8]> = vec![b"a", b"\x1b", b"[", b"1", b"m", b"\n", b"\xc3", b"\xa9", b";", b"]", b"\x07"];
-    let l = if quick { 5 } else { 7 };
+    let l = if quick { 6 } else { 7 };
     let inputs: Vec<Vec<usize>> = strings_upto(focus.len(), l).filter(|c| !c.is_empty()).collect();
     let evals = AtomicU64::new(0);
     let viol = std::sync::Mutex::new(Vec::<Finding>::new());
